@@ -56,6 +56,13 @@ def run(chk: core.Check, replay=None) -> None:
         else:
             R = rng.choice([600.0, 1500.0, 3000.0])
             s = R / rng.choice([6, 10, 12])
+        if i % 4 == 1:
+            # an inclined shot with a wind boundary in the last few percent of the requested range - between R cos(look) and R:
+            # whatever is prepared from the requested range (clipped wind lists, ...) must not change the rows before R
+            p["look_deg"] = rng.choice([10.0, -15.0, 20.0, 30.0, -25.0])
+            cl = math.cos(math.radians(p["look_deg"]))
+            p["winds"] = [[rng.choice([8.0, 15.0]), 90.0, R * (1.0 + cl) / 2.0], [rng.choice([20.0, 30.0]), 270.0, 1e8]]
+            chk.stratum("wind_boundary_just_inside_the_range_on_an_inclined_shot")
         base = {"shot": p, "cfg": cfg, "range_ft": R, "unit": "Foot", "step_ft": s, "extra": False}
         if rng.random() < 0.5:
             base["zero_yd"] = rng.choice([100, 200])
@@ -169,7 +176,7 @@ def run(chk: core.Check, replay=None) -> None:
     loopsuite.validate(chk, "C11", outs, pairs)
     chk.sample({"base": outs[0]["sc"], "variant": outs[1]["sc"], "pair_lines": pairs[:2]})
     chk.sample({"tlc_behaviour": {k: v for k, v in behs[0].items() if k != "consts"}})
-    chk.require_strata(["variant_time_step_below_dt", "variant_step_below_max_step", "variant_step_eq_max_step", "variant_shorter", "variant_coarser", "variant_finer", "variant_extra", "variant_timed", "extra_added_event_rows", "event_on_a_recording_step", "request_shorter_than_step_with_event"])
+    chk.require_strata(["wind_boundary_just_inside_the_range_on_an_inclined_shot", "variant_time_step_below_dt", "variant_step_below_max_step", "variant_step_eq_max_step", "variant_shorter", "variant_coarser", "variant_finer", "variant_extra", "variant_timed", "extra_added_event_rows", "event_on_a_recording_step", "request_shorter_than_step_with_event"])
     chk.exhaustive = False
     chk.rule.append("design: Integrator.tla twin recorders (rows lie on the polyline of iteration points that no recorder influences); "
                     "spec->code: row emission rule of TLC behaviours on the real filter; code->spec: seeded real shots, each fired with "
